@@ -482,3 +482,12 @@ Example C09_example_certifies :
   s_kind s0 = KLrto /\ s_grad s0 = [] /\
   draw_ok (rto_step (1 # 1000000000000)%Q sb 0 [[0%Q]] s0 (mkR [1; 0; 1; 1]%Q 0%Q 1%Z)) = true.
 Proof. split; [reflexivity | split; [reflexivity | vm_compute; reflexivity]]. Qed.
+
+Example C09_example_legacy_ls :
+  let sb : lsblock := ([(mkGF (inr 1%Q) [mkRow 1%Q [[1%Q]]], None)], false) in
+  let jt : list vec -> Q := gjoint [mkGF (inr 1%Q) [mkRow 1%Q [[1%Q]]]] [] in
+  let rs : nat -> nat -> rnd := fun _ _ => mkR [1; 0; 1; 1]%Q 0%Q 1%Z in
+  exists e, In e (snd (lsweep (cond (jt2 jt)) (cltrans2 (1 # 1000000000000)%Q [L2Ls sb] [1%Q]) rs [[0%Q]])) /\
+            nth (e_blk e) [L2Ls sb] L2Opq = L2Ls sb /\
+            fst (lsweep (cond (jt2 jt)) (cltrans2 (1 # 1000000000000)%Q [L2Ls sb] [1%Q]) rs [[0%Q]]) = [[1%Q]].
+Proof. eexists. split; [left; reflexivity | split; [reflexivity | vm_compute; reflexivity]]. Qed.
